@@ -154,4 +154,5 @@ func suiteTrigger(c *Ctx) {
 		c.Nontrivial(strings.Join(seqs[i], ";"))
 		c.Class(fmt.Sprintf("seq/len%d", len(seqs[i])))
 	}
+	triggerRace(c)
 }
